@@ -20,6 +20,7 @@ MODULES = [
     ('r_access', ['C04', 'C07', 'C09', 'C10', 'C11', 'C13', 'C14', 'C17', 'C19']),
     ('r_parser', ['C18', 'C08', 'C12']),
     ('r_panic', ['C12', 'C15', 'C04']),
+    ('r_enable', ['C03', 'C06', 'C08', 'C05', 'C10']),
 ]
 
 ALL_PROPS = ['C%02d' % i for i in range(1, 21)]
